@@ -3,6 +3,7 @@
   `connect_token_entries`) agrees with `Netcode.NetcodeServer.findOrAddConnectTokenEntry`.
   Headline statements in `Props/SrcTieTokenTable.lean`.
 -/
+import RenetVerif.Generated.Src.TokenTable
 import RenetVerif.Lemmas.SrcEquiv.Prims
 import RenetVerif.Netcode.Server
 namespace RenetVerif.SrcEquiv
